@@ -1,5 +1,6 @@
 import PharmpyModel.Core.Sexp
 import PharmpyModel.C18.Search
+import PharmpyModel.C18.Let
 open Pharmpy Pharmpy.C18
 
 def bad : Sexp := .list [.atom "err", .atom "bad-op"]
@@ -88,8 +89,46 @@ def atomS : Atom → Sexp
   | .peri c m => .list [.atom "PERIPHERALS", Sexp.ofNat c, .atom m]
   | .lag m => .list [.atom "LAGTIME", .atom m]
 
+def csym? : Sexp → Option CSym
+  | .atom "wild" => some .wild
+  | .list [.atom "ref", .atom n] => some (.ref n)
+  | .list (.atom "vals" :: xs) => do some (.vals (← xs.mapM Sexp.asAtom?))
+  | _ => none
+
+def fp? : Sexp → Option (Option (List String))
+  | .atom "wild" => some none
+  | .list (.atom "fps" :: xs) => do some (some (← xs.mapM Sexp.asAtom?))
+  | _ => none
+
+def lstmt? : Sexp → Option LStmt
+  | .list [.atom "let", .atom n, vs] => do some (.letDef n (← strs? vs))
+  | .list [.atom "cov", p, c, f, .atom op, o] => do
+    some (.cov ⟨← csym? p, ← csym? c, ← fp? f, op, ← o.asBool?⟩)
+  | _ => none
+
+def csymS : CSym → Sexp
+  | .wild => .atom "wild"
+  | .ref n => .list [.atom "ref", .atom n]
+  | .vals l => .list (.atom "vals" :: l.map .atom)
+
+def covS (c : Cov) : Sexp :=
+  .list [.atom "cov", csymS c.parameter, csymS c.covariate,
+    (match c.fp with | none => .atom "wild" | some l => .list (.atom "fps" :: l.map .atom)),
+    .atom c.op, Sexp.ofBool c.optional]
+
+def lstmtS : LStmt → Sexp
+  | .letDef n v => .list [.atom "let", .atom n, Sexp.ofStrs v]
+  | .cov c => covS c
+
 def handle (req : Sexp) : Sexp :=
   match req with
+  | .list [.atom "letkeys", ts] =>
+    match (do let xs ← ts.asList?; xs.mapM lstmt?) with
+    | some ts =>
+      let ss := interpret ts
+      .list [.list (ss.map lstmtS), keysS (covKeys Env.empty ss), .list ((letSubs ss).map covS),
+             keysS (covKeys Env.empty (interpret (explicit ts)))]
+    | none => bad
   | .list [.atom "partitions", xs] =>
     match nats? xs with
     | some l => .list ((partitions l).map natss)
